@@ -310,7 +310,7 @@ class Sim:
                         break
                 setattr(a, qname, nq)
                 q = nq
-            if q.items and th.started and not th.stop_requested and not th.crashed:
+            if q.items and th.started and not th.stop_requested and not th.crashed and not getattr(a, "held", False):
                 progressed = True
                 try:
                     fn(th)
@@ -463,6 +463,12 @@ class Sim:
             self.settle()
         elif op == "tick":
             self.settle()
+        elif op == "mark":
+            pass
+        elif op == "hold":
+            # the application's queue consumers are not scheduled while held
+            self.apps[int(t[1])].held = t[2] == "1"
+            self.settle()
         elif op == "ans":
             a = self.apps[int(t[1])]
             idx = int(t[2])
@@ -491,8 +497,9 @@ class Sim:
         elif op == "handler":
             # run the k-th deferred ThreadingApplication handler now
             hs = self.env.deferred_handlers
-            if hs:
-                h = hs.pop(int(t[1]) if len(t) > 1 else 0)
+            k = int(t[1]) if len(t) > 1 else 0
+            if k < len(hs):
+                h = hs.pop(k)
                 try:
                     h.run_now()
                 except Exception as e:  # noqa
